@@ -56,6 +56,36 @@ class Ctx:
                 else:
                     snap = set(obj)
                 self._globals0.append((mod, nm, obj, snap))
+        # ... and of every module-level *object* of a class the package defines (e.g. a holder of the active table and
+        # its caches): its attributes (slots or __dict__) are put back, containers with their import-time contents
+        self._objs0 = []
+        import enum
+        import types
+        for mname, mod in list(sys.modules.items()):
+            if mod is None or not (mname == "selfies" or mname.startswith("selfies.")):
+                continue
+            for nm, obj in list(vars(mod).items()):
+                cls = type(obj)
+                if nm.startswith("__") or isinstance(obj, (type, types.ModuleType, types.FunctionType, types.BuiltinFunctionType, enum.Enum)):
+                    continue
+                if not str(getattr(cls, "__module__", "")).startswith("selfies") or callable(obj):
+                    continue
+                if any(o is obj for o, _ in self._objs0):
+                    continue
+                names = []
+                for k in cls.__mro__:
+                    sl = k.__dict__.get("__slots__", ())
+                    names += [sl] if isinstance(sl, str) else list(sl)
+                names += list(getattr(obj, "__dict__", {}))
+                attrs = {}
+                for a in names:
+                    try:
+                        v = getattr(obj, a)
+                    except AttributeError:
+                        continue
+                    snap = dict(v) if isinstance(v, dict) else list(v) if isinstance(v, list) else set(v) if isinstance(v, set) else None
+                    attrs[a] = (v, snap)
+                self._objs0.append((obj, attrs))
         self.stubs = list(symstr.WRAPPED) + ["injected names: " + ", ".join(sorted(symstr.INJECTED))]
 
     # -- per-path reset of module-level mutable state
@@ -77,9 +107,37 @@ class Ctx:
             except Exception:  # noqa
                 pass
 
+    def _restore_objects(self):
+        for obj, attrs in self._objs0:
+            for a, (v, snap) in attrs.items():
+                try:
+                    if getattr(obj, a, None) is not v:
+                        setattr(obj, a, v)
+                    if snap is not None and v != snap:
+                        v.clear()
+                        v.update(snap) if not isinstance(v, list) else v.extend(snap)
+                except Exception:  # noqa
+                    pass
+
+    def _install_table(self, table):
+        """make `table` (values may be proxies) the table in force: directly where the package keeps it in the module global
+        this harness knows, otherwise - or if the getter does not hand the same values back - through the real setter
+        (its validation is decided from the value ranges)"""
+        bc = self.bc
+        if hasattr(bc, "_current_constraints"):
+            bc._current_constraints = table
+            try:
+                got = bc.get_semantic_constraints()
+                if len(got) == len(table) and all(k in got and got[k] is v for k, v in table.items()):
+                    return
+            except Exception:  # noqa
+                pass
+        bc.set_semantic_constraints(dict(table))
+
     def reset(self, table=None):
         gr, bc, mg = self.gr, self.bc, self.mg
         self._restore_globals()
+        self._restore_objects()
         if self._atom_cache0 is not None:
             c = gr._PROCESS_ATOM_CACHE
             dict.clear(c)
@@ -112,12 +170,12 @@ class Ctx:
                 if k not in self._presets_import:
                     del store[k]
         if table is None:
-            if isinstance(store, dict) and "default" in store:
+            if isinstance(store, dict) and "default" in store and hasattr(bc, "_current_constraints"):
                 bc._current_constraints = store["default"]
             else:
                 bc.set_semantic_constraints("default")
         else:
-            bc._current_constraints = table
+            self._install_table(table)
 
     def sym_table(self, keys, lo=0, hi=9, prefix="cap"):
         """M-TAB: a table with the given keys and free integer values in lo..hi"""
